@@ -181,6 +181,9 @@ func (x *Exec) tryAdapt(f *Frame, st *State, b *ssa.BasicBlock, groups [][]*Clau
 				e2 := x.frameEnv(f, st, b)
 				x.addTopLets(e2)
 				ad.apply(e2)
+				if os.Getenv("GOVC_TRACE") != "" {
+					fmt.Fprintf(os.Stderr, "adapt try %s\n", ad.String())
+				}
 				if x.groupHoldsOnEntry(e2, st, group) {
 					found, nfound = ad, nfound+1
 					if os.Getenv("GOVC_TRACE") != "" {
@@ -214,6 +217,9 @@ func (x *Exec) tryAdapt(f *Frame, st *State, b *ssa.BasicBlock, groups [][]*Clau
 	}
 	if os.Getenv("GOVC_TRACE") != "" {
 		fmt.Fprintf(os.Stderr, "adapt %s: %d groups, %d candidates, found %d\n", f.fn.Name(), len(groups), len(cands), nfound)
+		for _, c := range cands {
+			fmt.Fprintf(os.Stderr, "adapt   candidate %s : %s\n", c.name, c.t.Sort)
+		}
 	}
 	if nfound != 1 {
 		return nil // none, or ambiguous: do not guess
@@ -227,6 +233,9 @@ func (x *Exec) groupHoldsOnEntry(env *Env, st *State, group []*Clause) bool {
 	for _, iv := range group {
 		t, err := x.evalBool(env, iv.Expr)
 		if err != nil {
+			if os.Getenv("GOVC_TRACE") != "" {
+				fmt.Fprintf(os.Stderr, "adapt   clause %s does not evaluate: %v\n", iv.Label, err)
+			}
 			return false
 		}
 		goals = append(goals, t)
@@ -245,5 +254,13 @@ func (x *Exec) groupHoldsOnEntry(env *Env, st *State, group []*Clause) bool {
 		return true
 	}
 	r := Solve(dir, "adaptq", x.prog.buildScript(o), 2)
+	if os.Getenv("GOVC_TRACE") != "" && r.Status != "unsat" {
+		for i, g := range goals {
+			o1 := *o
+			o1.Goal = g
+			r1 := Solve(dir, fmt.Sprintf("adaptq%d", i), x.prog.buildScript(&o1), 2)
+			fmt.Fprintf(os.Stderr, "adapt   clause %s on entry: %s\n", group[i].Label, r1.Status)
+		}
+	}
 	return r.Status == "unsat"
 }
